@@ -51,6 +51,46 @@ def oracle_one(ctx, src, r, astblock=None):
     return True, ""
 
 
+# White_Space of Unicode (what Rust's `char::is_whitespace` accepts)
+RUST_WS = set(map(chr, [9, 10, 11, 12, 13, 32, 0x85, 0xA0, 0x1680, 0x2028, 0x2029, 0x202F, 0x205F, 0x3000] + list(range(0x2000, 0x200B))))
+_TOKLINE = re.compile(r"^T (\d+):(\d+) (\d+):(\d+) ")
+
+
+def unlexed_text(src, tokblock):
+    """model-free: the characters of an ACCEPTED file that lie in no token the implementation's own lexer reported, and are
+    neither white space, a `;` nor part of a `#` comment.  "Parses the whole file": there must be none.  -> (offset, char) or None"""
+    starts = [None, 0]
+    for i, ch in enumerate(src):
+        if ch == "\n":
+            starts.append(i + 1)
+    covered = bytearray(len(src) + 2)
+    for line in tokblock.split("\n"):
+        m = _TOKLINE.match(line)
+        if not m:
+            continue
+        l1, c1, l2, c2 = (int(x) for x in m.groups())
+        if l1 >= len(starts) or l2 >= len(starts):
+            return None                     # positions outside the file are judged by the line-bound oracle
+        a, b = starts[l1] + c1 - 1, starts[l2] + c2 - 1
+        for k in range(max(a, 0), min(b, len(src) - 1) + 1):
+            covered[k] = 1
+    in_comment = False
+    for i, ch in enumerate(src):
+        if ch == "\n":
+            in_comment = False
+            continue
+        if covered[i]:
+            continue            # a `#` inside a token (a string) starts no comment; tokens never begin inside a comment
+        if in_comment:
+            continue
+        if ch == "#":
+            in_comment = True
+            continue
+        if ch not in RUST_WS and ch != ";":      # a suppressed terminator (first / repeated `;`) is dropped from the stream
+            return i, ch
+    return None
+
+
 def run(ctx, model_ok):
     rng = ctx.rng
     seeds = gens.seed_programs()
@@ -70,8 +110,21 @@ def run(ctx, model_ok):
     cli_budget = 60000 if ctx.tier == "thorough" else 4000
     for label, srcs in streams:
         srcs = list(dict.fromkeys(srcs))
-        tie.front(ctx, "tok", srcs, label, model_ok)
+        tokb, _ = tie.front(ctx, "tok", srcs, label, model_ok)
         astb, _ = tie.front(ctx, "ast", srcs, label, model_ok)
+        # model-free: an accepted file is lexed whole — every character belongs to a reported token, white space or a comment
+        nun = 0
+        for s, tb, ab in zip(srcs, tokb, astb):
+            if ab.startswith("ERR") or ab.startswith("TIMEOUT") or tb.startswith("TIMEOUT") or "ERR" in tb:
+                continue
+            u = unlexed_text(s, tb)
+            ctx.cov["accepted_files_checked_for_unlexed_text"] = ctx.cov.get("accepted_files_checked_for_unlexed_text", 0) + 1
+            if u is not None and nun < 3:
+                r = core.run_cli(s)
+                if r["status"] == "0" or not re.match(r"^t\.sd:\d+:\d+: (unexpected|'|interpolation)", r["stderr"]):
+                    nun += 1
+                    ctx.violation(f"the file is accepted, but the character {u[1]!r} at offset {u[0]} belongs to no token, white space or "
+                                  f"comment: the front end did not read the whole file", s, {"cli": r, "tokens": tb[-600:]})
         # metamorphic (model-free): a lexical error that src + "\n" reports strictly inside src cannot disappear when the
         # trailing newline is removed — the front end must reject src too, no later than there
         if label in ("short", "unicode", "mutations"):
